@@ -467,6 +467,11 @@ def valuations():
     for bit in range(32):
         env = dict((n, ((1 << bit) if j % 2 == 0 else ~(1 << bit)) & 0xFFFFFFFF) for j, (n, s) in enumerate(NAMES))
         out.append(env)
+    # shift counts whose sum wraps at 8 bits, or passes the operand width
+    for bv, cv, zv in ((0x80, 0x84, 0x84), (0x18, 0xF0, 0xF0), (0xFF, 0x01, 0x01), (0x10, 0x10, 0x10), (0x1F, 0x01, 0x21), (0x04, 0xFC, 0x03)):
+        env = dict(out[4])
+        env.update({'b': bv, 'c': cv, 'x': 0xDEADBEEF, 'y': (out[4]['y'] & ~0xFF) | bv, 'z': (out[4]['z'] & ~0xFF) | zv})
+        out.append(env)
     return out
 
 
@@ -569,6 +574,20 @@ def family():
             add('rot-merge', Op(op, Op(op2, x, C(3)), y))
             add('rot-merge', Op(op, Op(op2, b, C(3, 8)), C(6, 8)))
             add('rot-merge', Op(op, Op(op2, Op(op, x, C(1)), C(2)), C(4)))
+    # --- nested shifts and rotations with symbolic counts (a merged count X+Y is computed at the counts' own width)
+    for op in ('>>', '<<', 'a>>', '<<<', '>>>'):
+        for inner in ('>>', '<<', 'a>>', '<<<', '>>>'):
+            add('nested-shift', Op(op, Op(inner, x, b), c))
+            add('nested-shift', Op(op, Op(inner, x, b), C(0xF0, 8)))
+            add('nested-shift', Op(op, Op(inner, x, C(0x18, 8)), c))
+            add('nested-shift', Op(op, Op(inner, x, Sl(y, 0, 8)), Sl(z, 0, 8)))
+    # --- operands of one shape whose inner constants differ only in width (their ordering keys coincide where the key ignores the width)
+    for op in ('&', '|', '^', '+', '*'):
+        s8, s32 = Op('<<', x, Op('+', C(0xF9, 8), C(0x0B, 8))), Op('<<', x, Op('+', C(0xF9), C(0x0B)))
+        add('width-twins', Op(op, s8, s32))
+        add('width-twins', Op(op, s32, s8))
+        add('width-twins', Op(op, Op('>>', y, C(4, 8)), Op('>>', y, C(4))))
+        add('width-twins', Op(op, ExprCond(Op('+', C(0xFF, 8), C(1, 8)), x, y), ExprCond(Op('+', C(0xFF), C(1)), x, y)))
     # --- comparison and parity
     for e in (Op('==', C(3), C(3)), Op('==', C(3), C(4)), Op('==', C(0), C(0)), Op('==', C(0xFF, 8), C(0xFF, 8)), Op('==', C(1, 8), C(0, 8)), Op('==', C(1, 1), C(1, 1)), Op('==', SC(-1), C(0xFFFFFFFF)),
               Op('==', Op('|', x, C(1)), C(0)), Op('==', Op('|', x, C(0)), C(0)), Op('==', Op('|', x, C(0x80000000)), C(0)), Op('==', Op('|', x, y), C(0)), Op('==', Op('|', x, y, C(4)), C(0)),
